@@ -127,34 +127,23 @@ fn diff_plain(plain: &Document, d: &Document) -> Option<String> {
 // ---------------------------------------------------------------------------------------------
 // direction A
 
-struct Opened {
-    problem: Option<String>,
-}
-
-#[allow(clippy::too_many_arguments)]
-fn ref_open(
-    k: Option<&Counters>, plain: &Document, container: &Document, enc: &EncDict, enc_id: ObjectId, id0: &[u8], pw: &[u8], role: Role, q: Quirks,
-    truncate: bool,
-) -> Opened {
-    let key = match rc::derive_opt(enc, id0, pw, role, truncate) {
-        Ok(k) => k,
-        Err(e) => return Opened { problem: Some(e) },
-    };
+/// Decrypt the container with `key` by the reference handler and compare with the plaintext.
+fn ref_content(k: Option<&Counters>, plain: &Document, container: &Document, enc: &EncDict, enc_id: ObjectId, key: &[u8], q: Quirks) -> Option<String> {
     let mut objs: BTreeMap<ObjectId, Object> = container
         .objects
         .iter()
         .filter(|(id, o)| **id != enc_id && !matches!(o.type_name(), Ok(b"XRef")))
         .map(|(k, v)| (*k, v.clone()))
         .collect();
-    let rep = rc::apply(&mut objs, None, enc, &key, Direction::Decrypt, q);
+    let rep = rc::apply(&mut objs, None, enc, key, Direction::Decrypt, q);
     if let Some(k) = k {
         inc(&k.ref_strings, rep.strings);
         inc(&k.ref_streams, rep.streams);
     }
     if let Some((path, e)) = rep.errors.first() {
-        return Opened { problem: Some(format!("{} object(s) cannot be decrypted, first {}: {}", rep.errors.len(), path, e)) };
+        return Some(format!("{} object(s) cannot be decrypted, first {}: {}", rep.errors.len(), path, e));
     }
-    Opened { problem: cmp::diff_objects(&plain.objects, &objs) }
+    cmp::diff_objects(&plain.objects, &objs)
 }
 
 fn run_a(c: &Case, k: Option<&Counters>) -> Result<Vec<Fail>, String> {
@@ -235,7 +224,7 @@ fn run_a(c: &Case, k: Option<&Counters>) -> Result<Vec<Fail>, String> {
         let long = too_long_r5(r, &c.user) || too_long_r5(r, &c.owner);
         let upf = rc::utf8_prep_full(&c.user)?;
         let opf = rc::utf8_prep_full(&c.owner)?;
-        let mut val = |fails: &mut Vec<Fail>, name: &str, ok: bool, ok_untruncated: bool| {
+        let val = |fails: &mut Vec<Fail>, name: &str, ok: bool, ok_untruncated: bool| {
             if ok {
                 if let Some(k) = k {
                     inc(&k.fields_validated, 1);
@@ -248,59 +237,84 @@ fn run_a(c: &Case, k: Option<&Counters>) -> Result<Vec<Fail>, String> {
                 });
             }
         };
+        let fk = Some(&menu::FILE_KEY[..]);
         val(&mut fails, "U (Algorithm 11)", rc::alg11_user(&enc, &up), rc::alg11_user(&enc, &upf));
         val(&mut fails, "O (Algorithm 12)", rc::alg12_owner(&enc, &op), rc::alg12_owner(&enc, &opf));
-        val(&mut fails, "UE (file key)", rc::alg2a_user(&enc, &up).as_deref() == Some(&menu::FILE_KEY[..]), rc::alg2a_user(&enc, &upf).as_deref() == Some(&menu::FILE_KEY[..]));
-        val(&mut fails, "OE (file key)", rc::alg2a_owner(&enc, &op).as_deref() == Some(&menu::FILE_KEY[..]), rc::alg2a_owner(&enc, &opf).as_deref() == Some(&menu::FILE_KEY[..]));
+        val(&mut fails, "UE (file key)", rc::alg2a_user(&enc, &up).as_deref() == fk, rc::alg2a_user(&enc, &upf).as_deref() == fk);
+        val(&mut fails, "OE (file key)", rc::alg2a_owner(&enc, &op).as_deref() == fk, rc::alg2a_owner(&enc, &opf).as_deref() == fk);
         match rc::alg13(&enc, &menu::FILE_KEY) {
             Ok(()) => val(&mut fails, "Perms (Algorithm 13)", true, true),
-            Err(e) => fails.push(Fail { item: "A:field Perms (Algorithm 13)".into(), detail: e, finding: None }),
+            Err(e) => {
+                // finding: the 16 bytes lopdf stores are the *unencrypted* block of Algorithm 10
+                let raw = &enc.perms;
+                let plain_block = raw.len() == 16
+                    && &raw[9..12] == b"adb"
+                    && raw[..4] == (enc.p as u32).to_le_bytes()
+                    && raw[8] == if enc.encrypt_metadata { b'T' } else { b'F' };
+                fails.push(Fail {
+                    item: "A:field Perms (Algorithm 13)".into(),
+                    detail: format!("{}; stored bytes {}", e, hex(raw)),
+                    finding: if plain_block { Some("perms-not-encrypted") } else { None },
+                });
+            }
         }
         eq(&mut fails, "file key", state.file_encryption_key(), &menu::FILE_KEY, None);
     }
-    // --- open as user and as owner
+    // --- authenticate and open, as user and as owner
+    let mut user_key: Option<Vec<u8>> = None;
     for role in [Role::User, Role::Owner] {
+        let rname = if role == Role::User { "user" } else { "owner" };
         // an empty owner password is "no owner password" for R <= 4: the user password opens as owner
         let absent_owner = role == Role::Owner && r <= 4 && op.is_empty() && !up.is_empty();
-        let pw: &[u8] = match role {
-            Role::User => &up,
-            Role::Owner => {
+        let pw: &[u8] = if role == Role::User || absent_owner { &up } else { &op };
+        let key = match rc::derive(&enc, &id0, pw, role) {
+            Ok(key) => key,
+            Err(e) => {
+                // one catalogued deviation neutralised must make the authentication pass
+                let mut alt: Vec<(&'static str, Vec<u8>, bool)> = vec![];
+                let text = if role == Role::User { &c.user } else { &c.owner };
+                if too_long_r5(r, text) {
+                    alt.push(("r6-password-over-127", rc::utf8_prep_full(text)?, false));
+                }
                 if absent_owner {
-                    &up
-                } else {
-                    &op
+                    alt.push(("empty-owner-password", vec![], true));
+                }
+                let mut found = None;
+                for (id, p, trunc) in alt {
+                    if let Ok(key) = rc::derive_opt(&enc, &id0, &p, role, trunc) {
+                        found = Some((id, key));
+                        break;
+                    }
+                }
+                fails.push(Fail { item: format!("A:authenticate as {}", rname), detail: e, finding: found.as_ref().map(|x| x.0) });
+                match found {
+                    Some((_, key)) => key,
+                    None => continue,
                 }
             }
         };
-        let item = if role == Role::User { "A:open as user" } else { "A:open as owner" };
-        let o = ref_open(k, &plain, &container, &enc, enc_id, &id0, pw, role, Quirks::default(), true);
-        let Some(problem) = o.problem else { continue };
-        // classification: exactly one catalogued deviation neutralised must make the item pass
-        let mut cands: Vec<(&'static str, Quirks, bool, Vec<u8>)> = vec![];
+        if role == Role::User {
+            user_key = Some(key.clone());
+        } else if user_key.as_deref() == Some(&key[..]) {
+            // same key as the user role: the decrypted content is the same by construction
+            if let Some(k) = k {
+                inc(&k.fields_equal, 1);
+            }
+            continue;
+        }
+        let Some(problem) = ref_content(k, &plain, &container, &enc, enc_id, &key, Quirks::default()) else { continue };
+        let mut cands: Vec<(&'static str, Quirks)> = vec![];
         if c.kind == DocKind::StreamDict && c.cfg.strf != F::Identity {
-            cands.push(("stream-dict-strings", Quirks { skip_stream_dict_strings: true, ..Default::default() }, true, pw.to_vec()));
+            cands.push(("stream-dict-strings", Quirks { skip_stream_dict_strings: true, ..Default::default() }));
         }
         if identity_named_not_in_cf(&c.cfg) {
-            cands.push(("identity-filter-fallback", Quirks { missing_filter_is_rc4: true, ..Default::default() }, true, pw.to_vec()));
+            cands.push(("identity-filter-fallback", Quirks { missing_filter_is_rc4: true, ..Default::default() }));
         }
         if uses_custom_identity(&c.cfg) {
-            cands.push(("cfm-none", Quirks { cfm_identity_is_none: true, ..Default::default() }, true, pw.to_vec()));
+            cands.push(("cfm-none", Quirks { cfm_identity_is_none: true, ..Default::default() }));
         }
-        if too_long_r5(r, if role == Role::User { &c.user } else { &c.owner }) {
-            let full = rc::utf8_prep_full(if role == Role::User { &c.user } else { &c.owner })?;
-            cands.push(("r6-password-over-127", Quirks::default(), false, full));
-        }
-        if absent_owner {
-            cands.push(("empty-owner-password", Quirks::default(), true, vec![]));
-        }
-        let mut finding = None;
-        for (id, q, trunc, alt) in cands {
-            if ref_open(None, &plain, &container, &enc, enc_id, &id0, &alt, role, q, trunc).problem.is_none() {
-                finding = Some(id);
-                break;
-            }
-        }
-        fails.push(Fail { item: item.into(), detail: problem, finding });
+        let finding = cands.into_iter().find(|(_, q)| ref_content(None, &plain, &container, &enc, enc_id, &key, *q).is_none()).map(|x| x.0);
+        fails.push(Fail { item: format!("A:content opened as {}", rname), detail: problem, finding });
     }
     Ok(fails)
 }
@@ -317,13 +331,17 @@ fn pattern16(p: usize) -> [u8; 16] {
 }
 
 /// What the reference-side writer does differently (classifier only; default = the standard).
-#[derive(Clone, Copy, Default)]
+#[derive(Clone, Copy, Default, PartialEq)]
 struct BVariant {
     quirks: Quirks,
     /// spell the CFM of the identity crypt filter /Identity (lopdf's spelling) instead of /None
     cfm_identity: bool,
-    /// always write /Length
+    /// V4: always write /Length 128
     force_length: bool,
+    /// V5: never write /Length 256
+    no_length: bool,
+    /// store the Perms block of Algorithm 10 without the AES-256 ECB step
+    perms_plain: bool,
 }
 
 struct BDoc {
@@ -374,7 +392,7 @@ fn build_b(c: &Case, v: BVariant) -> Result<BDoc, String> {
         key_bits: c.cfg.key_bits(),
         write_length: match c.cfg.ver {
             Ver::V1 => false,
-            Ver::R5 | Ver::V5 => c.write_length,
+            Ver::R5 | Ver::V5 => c.write_length && !v.no_length,
             _ => c.write_length || v.force_length,
         },
         p: menu::p_word(c.perms),
@@ -388,10 +406,18 @@ fn build_b(c: &Case, v: BVariant) -> Result<BDoc, String> {
         salts: [s8(0), s8(0x10), s8(0x20), s8(0x30)],
         perms_tail: [p16[0], p16[1], p16[2], p16[3]],
     };
-    let (dict, key) = rc::make(&mp, &id0, &up, &op);
+    let (mut dict, key) = rc::make(&mp, &id0, &up, &op);
     let enc = EncDict::parse(&dict).map_err(|e| format!("reference wrote a dictionary it cannot read: {}", e))?;
+    if v.perms_plain && r >= 5 {
+        let mut b = [0u8; 16];
+        b.copy_from_slice(&enc.perms);
+        let raw = rc::aes_ecb_decrypt_block(&key, &b)?;
+        dict.set("Perms", Object::String(raw.to_vec(), lopdf::StringFormat::Hexadecimal));
+    }
     let mut doc = plain.clone();
-    let rep = rc::apply(&mut doc.objects, None, &enc, &key, Direction::Encrypt(IvSource::new(p16)), v.quirks);
+    let mut q = v.quirks;
+    q.cfm_identity_is_none |= v.cfm_identity;
+    let rep = rc::apply(&mut doc.objects, None, &enc, &key, Direction::Encrypt(IvSource::new(p16)), q);
     if let Some((p, e)) = rep.errors.first() {
         return Err(format!("reference cannot encrypt {}: {}", p, e));
     }
@@ -400,15 +426,6 @@ fn build_b(c: &Case, v: BVariant) -> Result<BDoc, String> {
     doc.objects.insert(enc_id, Object::Dictionary(dict));
     doc.trailer.set("Encrypt", Object::Reference(enc_id));
     Ok(BDoc { plain, doc, enc, id0, op, up })
-}
-
-/// What lopdf sees: the in-memory document or the document after lopdf's writer and loader.
-fn b_target(c: &Case, b: &BDoc) -> Result<Document, String> {
-    if c.via_file {
-        util::save_bytes(&b.doc, c.table).and_then(|x| util::load(&x))
-    } else {
-        Ok(b.doc.clone())
-    }
 }
 
 /// decrypt with a password (or raw bytes); Ok(document) or the error text
@@ -425,88 +442,52 @@ fn lopdf_open(target: &Document, pw: Result<&str, &[u8]>) -> Result<Document, St
     }
 }
 
-fn b_user_problem(c: &Case, v: BVariant) -> Result<Option<String>, String> {
-    let b = build_b(c, v)?;
-    let t = match b_target(c, &b) {
-        Ok(t) => t,
-        Err(e) => return Ok(Some(e)),
-    };
-    if !t.is_encrypted() {
-        return Ok(diff_plain(&b.plain, &t));
-    }
-    Ok(match lopdf_open(&t, Ok(&c.user)) {
-        Ok(d) => diff_plain(&b.plain, &d),
-        Err(e) => Some(e),
-    })
+struct BItem {
+    name: &'static str,
+    problem: Option<String>,
+    /// finding established by the item's own evidence (owner-key-r2-4)
+    intrinsic: Option<&'static str>,
 }
 
-fn run_b(c: &Case, k: Option<&Counters>) -> Result<Vec<Fail>, String> {
+/// Build the reference-encrypted document under a writer variant and let lopdf open it.
+fn b_eval(c: &Case, v: BVariant, k: Option<&Counters>) -> Result<Vec<BItem>, String> {
     let r = c.cfg.revision();
-    let b = build_b(c, BVariant::default())?;
-    let mut fails = vec![];
-    let target = match b_target(c, &b) {
-        Ok(t) => t,
-        Err(e) => {
+    let b = build_b(c, v)?;
+    let item = |name: &'static str, problem: Option<String>| BItem { name, problem, intrinsic: None };
+    let target = if c.via_file {
+        match util::save_bytes(&b.doc, c.table).and_then(|x| util::load(&x)) {
+            Ok(t) => t,
             // the loader's own decrypt("") failed
-            return Ok(vec![Fail { item: "B:load".into(), detail: e, finding: None }]);
+            Err(e) => return Ok(vec![item("B:load", Some(e))]),
         }
-    };
-    let user_candidates = |c: &Case| -> Vec<(&'static str, BVariant)> {
-        let mut v = vec![];
-        if c.kind == DocKind::StreamDict && c.cfg.strf != F::Identity {
-            v.push(("stream-dict-strings", BVariant { quirks: Quirks { skip_stream_dict_strings: true, ..Default::default() }, ..Default::default() }));
-        }
-        if identity_named_not_in_cf(&c.cfg) {
-            v.push(("identity-filter-fallback", BVariant { quirks: Quirks { missing_filter_is_rc4: true, ..Default::default() }, ..Default::default() }));
-        }
-        if uses_custom_identity(&c.cfg) {
-            v.push(("cfm-none", BVariant { cfm_identity: true, ..Default::default() }));
-        }
-        if matches!(c.cfg.ver, Ver::V4) && !c.write_length {
-            v.push(("v4-length-absent", BVariant { force_length: true, ..Default::default() }));
-        }
-        v
-    };
-    let classify_user = |c: &Case| -> Option<&'static str> {
-        for (id, v) in user_candidates(c) {
-            if matches!(b_user_problem(c, v), Ok(None)) {
-                return Some(id);
-            }
-        }
-        None
+    } else {
+        b.doc.clone()
     };
     if let Some(k) = k {
         inc(&k.lopdf_opens, 1);
     }
     if !target.is_encrypted() {
         // the loader opened it with the empty password
-        if let Some(p) = diff_plain(&b.plain, &target) {
-            fails.push(Fail { item: "B:auto-decrypt on load".into(), detail: p, finding: classify_user(c) });
-        }
-        return Ok(fails);
+        return Ok(vec![item("B:auto-decrypt on load", diff_plain(&b.plain, &target))]);
     }
-    // --- authentication entry points
-    let auth_u = util::guard(|| target.authenticate_user_password(&c.user));
-    if !matches!(auth_u, Ok(Ok(()))) {
-        fails.push(Fail { item: "B:authenticate user".into(), detail: format!("{:?}", auth_u), finding: classify_user(c) });
-    }
+    let mut out = vec![];
+    let show = |x: Result<Result<(), lopdf::Error>, String>| match x {
+        Ok(Ok(())) => None,
+        other => Some(format!("{:?}", other)),
+    };
+    out.push(item("B:authenticate user", show(util::guard(|| target.authenticate_user_password(&c.user)))));
     let owner_present = !(r <= 4 && b.op.is_empty());
     if owner_present {
-        let auth_o = util::guard(|| target.authenticate_owner_password(&c.owner));
-        if !matches!(auth_o, Ok(Ok(()))) {
-            fails.push(Fail { item: "B:authenticate owner".into(), detail: format!("{:?}", auth_o), finding: classify_user(c) });
-        }
+        out.push(item("B:authenticate owner", show(util::guard(|| target.authenticate_owner_password(&c.owner)))));
     }
-    // --- decrypt(user)
     let as_user = lopdf_open(&target, Ok(&c.user));
-    let user_problem = match &as_user {
-        Ok(d) => diff_plain(&b.plain, d),
-        Err(e) => Some(e.clone()),
-    };
-    if let Some(p) = &user_problem {
-        fails.push(Fail { item: "B:decrypt(user)".into(), detail: p.clone(), finding: classify_user(c) });
-    }
-    // --- decrypt(owner)
+    out.push(item(
+        "B:decrypt(user)",
+        match &as_user {
+            Ok(d) => diff_plain(&b.plain, d),
+            Err(e) => Some(e.clone()),
+        },
+    ));
     if owner_present {
         if let Some(k) = k {
             inc(&k.lopdf_opens, 1);
@@ -516,23 +497,95 @@ fn run_b(c: &Case, k: Option<&Counters>) -> Result<Vec<Fail>, String> {
             Ok(d) => diff_plain(&b.plain, d),
             Err(e) => Some(e.clone()),
         };
-        if let Some(p) = problem {
-            // finding (i): R <= 4, owner differs from user, lopdf authenticates it as owner, and offering the
-            // user password recovered from O by Algorithm 7 gives exactly what decrypt(user) gives
-            let mut finding = None;
-            if r <= 4 && rc::pad32(&b.op) != rc::pad32(&b.up) && matches!(util::guard(|| target.authenticate_owner_password(&c.owner)), Ok(Ok(()))) {
-                if let (Some((_, recovered)), Ok(du)) = (rc::alg7_owner(&b.enc, &b.id0, &b.op), &as_user) {
-                    if let Ok(dr) = lopdf_open(&target, Err(&recovered)) {
-                        if cmp::digest_doc(&dr) == cmp::digest_doc(du) {
-                            finding = Some("owner-key-r2-4");
-                        }
+        let mut intrinsic = None;
+        if problem.is_some() && r <= 4 && rc::pad32(&b.op) != rc::pad32(&b.up) && out.iter().any(|i| i.name == "B:authenticate owner" && i.problem.is_none()) {
+            // finding (i): lopdf authenticates it as owner, and offering the user password that Algorithm 7
+            // recovers from O gives exactly what decrypt(user) gives
+            if let (Some((_, recovered)), Ok(du)) = (rc::alg7_owner(&b.enc, &b.id0, &b.op), &as_user) {
+                if let Ok(dr) = lopdf_open(&target, Err(&recovered)) {
+                    if cmp::digest_doc(&dr) == cmp::digest_doc(du) {
+                        intrinsic = Some("owner-key-r2-4");
                     }
                 }
             }
-            if finding.is_none() && user_problem.is_some() {
-                finding = classify_user(c);
+        }
+        out.push(BItem { name: "B:decrypt(owner)", problem, intrinsic });
+    }
+    Ok(out)
+}
+
+fn run_b(c: &Case, k: Option<&Counters>) -> Result<Vec<Fail>, String> {
+    let r = c.cfg.revision();
+    let base = b_eval(c, BVariant::default(), k)?;
+    if base.iter().all(|i| i.problem.is_none()) {
+        return Ok(vec![]);
+    }
+    // candidate deviations whose predicate holds for this case
+    let mut cands: Vec<(&'static str, Box<dyn Fn(&mut BVariant)>)> = vec![];
+    if c.kind == DocKind::StreamDict && c.cfg.strf != F::Identity {
+        cands.push(("stream-dict-strings", Box::new(|v| v.quirks.skip_stream_dict_strings = true)));
+    }
+    if identity_named_not_in_cf(&c.cfg) {
+        cands.push(("identity-filter-fallback", Box::new(|v| v.quirks.missing_filter_is_rc4 = true)));
+    }
+    if uses_custom_identity(&c.cfg) {
+        cands.push(("cfm-none", Box::new(|v| v.cfm_identity = true)));
+    }
+    if matches!(c.cfg.ver, Ver::V4) && !c.write_length {
+        cands.push(("v4-length-absent", Box::new(|v| v.force_length = true)));
+    }
+    if r >= 5 && c.write_length {
+        cands.push(("v5-length-256", Box::new(|v| v.no_length = true)));
+    }
+    if r >= 5 {
+        cands.push(("perms-not-encrypted", Box::new(|v| v.perms_plain = true)));
+    }
+    // evaluate every single candidate, then every pair, lazily
+    let mut evals: Vec<(Vec<&'static str>, Vec<BItem>)> = vec![];
+    for (id, f) in &cands {
+        let mut v = BVariant::default();
+        f(&mut v);
+        evals.push((vec![*id], b_eval(c, v, None)?));
+    }
+    let passes = |items: &[BItem], name: &str| -> bool {
+        // the item passes under the variant (an item that no longer exists because the document now
+        // opens differently - e.g. loads - counts only if nothing at all fails there)
+        match items.iter().find(|i| i.name == name) {
+            Some(i) => i.problem.is_none() || i.intrinsic.is_some(),
+            None => items.iter().all(|i| i.problem.is_none() || i.intrinsic.is_some()),
+        }
+    };
+    let mut fails = vec![];
+    let mut need_pairs = false;
+    for it in base.iter().filter(|i| i.problem.is_some()) {
+        if it.intrinsic.is_none() && !evals.iter().any(|(_, items)| passes(items, it.name)) {
+            need_pairs = true;
+        }
+    }
+    if need_pairs {
+        for i in 0..cands.len() {
+            for j in i + 1..cands.len() {
+                let mut v = BVariant::default();
+                (cands[i].1)(&mut v);
+                (cands[j].1)(&mut v);
+                evals.push((vec![cands[i].0, cands[j].0], b_eval(c, v, None)?));
             }
-            fails.push(Fail { item: "B:decrypt(owner)".into(), detail: p, finding });
+        }
+    }
+    for it in base.into_iter().filter(|i| i.problem.is_some()) {
+        let detail = it.problem.unwrap();
+        if let Some(f) = it.intrinsic {
+            fails.push(Fail { item: it.name.into(), detail, finding: Some(f) });
+            continue;
+        }
+        match evals.iter().find(|(_, items)| passes(items, it.name)) {
+            Some((ids, _)) => {
+                for (n, id) in ids.iter().enumerate() {
+                    let item = if ids.len() == 1 { it.name.to_string() } else { format!("{} [{} of {} deviations: {}]", it.name, n + 1, ids.len(), ids.join(" + ")) };
+                    fails.push(Fail { item, detail: detail.clone(), finding: Some(id) });
+                }
+            }
+            None => fails.push(Fail { item: it.name.into(), detail, finding: None }),
         }
     }
     Ok(fails)
@@ -605,6 +658,11 @@ fn cases(run: &Run) -> Vec<Case> {
                     if r <= 4 && pname == "saslprep" {
                         continue;
                     }
+                    // revision 6 costs ~40 ms per case (Algorithm 2.B): the quick bound takes every third
+                    // password pair per (configuration, document)
+                    if r6 && !thorough && (ci + ki + pi) % 3 != 0 && !(pname == "distinct" && *kind == DocKind::Page) {
+                        continue;
+                    }
                     let perm_list: Vec<u64> = if thorough {
                         if r6 {
                             menu::perm_menu()
@@ -624,8 +682,16 @@ fn cases(run: &Run) -> Vec<Case> {
                     // variants of the reference-side spelling (B only)
                     let mut spellings: Vec<(bool, bool)> = vec![(true, false)];
                     if dir == 'B' {
-                        if matches!(cfg.ver, Ver::V4) || matches!(cfg.ver, Ver::V2(40)) {
+                        let conforming = !identity_named_not_in_cf(cfg) && !uses_custom_identity(cfg) && *kind != DocKind::StreamDict;
+                        if (matches!(cfg.ver, Ver::V4) && conforming) || matches!(cfg.ver, Ver::V2(40)) {
                             spellings.push((false, false));
+                        }
+                        if matches!(cfg.ver, Ver::R5 | Ver::V5) {
+                            // baseline: no /Length (Table 20: only for V 2 and 3); variant: /Length 256 as most writers add
+                            spellings = vec![(false, false)];
+                            if conforming {
+                                spellings.push((true, false));
+                            }
                         }
                         if identity_named_not_in_cf(cfg) {
                             spellings.push((true, true));
@@ -633,6 +699,10 @@ fn cases(run: &Run) -> Vec<Case> {
                     }
                     for (mi, perms) in perm_list.iter().enumerate() {
                         for (ii, id_len) in ids.iter().enumerate() {
+                            // quick bound: identifier lengths 0 and 32 with the first permission word only
+                            if !thorough && ii > 0 && mi > 0 {
+                                continue;
+                            }
                             for (si, (write_length, omit_identity)) in spellings.iter().enumerate() {
                                 let patterns: Vec<usize> = if dir == 'A' {
                                     vec![0]
